@@ -357,4 +357,5 @@ def cc_summary(c):
     return "%s %s %s" % (c["kind"], c["dt"], [None if v is None else (v if isinstance(v, str) else float(v)) for v in c["cells"]][:10])
 
 
-main()
+if __name__ == "__main__":
+    main()
